@@ -193,6 +193,22 @@ func (spec *Spec) ParsePatterns(ctx context.Context) error {
 		return nil
 	}
 
+	// The syntax has to be one the parser knows even if there
+	// is no pattern to parse.
+	if _, err := spec.PatternParser(spec.PatternSyntax, nil); err != nil {
+		return err
+	}
+
+	// Parse every pattern before replacing any: if one of them
+	// does not parse, the others must still be in source form
+	// when the spec is repaired and compiled again (a string
+	// pattern would otherwise be parsed a second time).
+	type parsed struct {
+		b *Branch
+		x interface{}
+	}
+	var ps []parsed
+
 	for _, n := range spec.Nodes {
 		if n == nil || n.Branches == nil {
 			continue
@@ -210,8 +226,12 @@ func (spec *Spec) ParsePatterns(ctx context.Context) error {
 			if x, err = Canonicalize(x); err != nil {
 				return err
 			}
-			b.Pattern = x
+			ps = append(ps, parsed{b, x})
 		}
+	}
+
+	for _, p := range ps {
+		p.b.Pattern = p.x
 	}
 
 	if spec.PatternSyntax != "" {
